@@ -5,12 +5,13 @@ VARIABLES l
 vars == <<l>>
 Init == l = 1
 IsEv(e) == l <= Len(Trace) /\ Trace[l].ev = e /\ l' = l + 1
-Next == IsEv("reset") \/ IsEv("fixture") \/ (l = Len(Trace) + 1 /\ UNCHANGED l)
+Next == IsEv("crash") \/ IsEv("reset") \/ IsEv("fixture") \/ (l = Len(Trace) + 1 /\ UNCHANGED l)
 TraceSpec == Init /\ [][Next]_vars
 Has == l > 1
 Ev == Trace[l - 1]
 IsF == Has /\ Ev.ev = "fixture"
-Cond_NoPanic == IsF => Ev.e = "nil"
+NoCrash == ~(l > 1 /\ Trace[l - 1].ev = "crash")   \* the code under test took the whole harness process down (driver: mark_crash)
+Cond_NoPanic == NoCrash /\ (IsF => Ev.e = "nil")
 Cond_Harness_Walk == IsF => Ev.walkOK
 Cond_C19_Same == (IsF /\ Ev.e = "nil" /\ Ev.walkOK) => SameEntries(Ev.desc, Ev.stored)
 Cond_C19_Siblings == (IsF /\ Ev.e = "nil") => SiblingsOK(Ev.desc)
